@@ -452,6 +452,7 @@ func TestVerifReplay(t *testing.T) {
 			t.Fatalf("replay failed: %%v", p)
 		}
 	}()
+	vsymReset()
 	%s()
 	fmt.Println("VSYM-REPLAY-OK")
 }
